@@ -106,3 +106,153 @@ theorem checkSession_insert (thisName : String) (l1 l2 : List Session) (u s : Se
     exact ⟨Or.inl this, fun _ => this⟩
 
 end Election
+
+namespace Election
+
+/-- a closed session leaves no trace -/
+theorem close_no_trace (st : NS) (id : Nat) :
+    (st.close id).find id = none ∧ id ∉ (st.close id).listed ∧
+    (∀ peer b, id ∉ ((st.close id).candidatesFor peer b).map (·.id)) ∧
+    (st.close id).isElected id = false ∧ (st.close id).checkCandidate id = .otherContinues := by
+  have hfind : (st.close id).find id = none := by
+    unfold NS.find NS.close
+    rw [List.find?_eq_none]
+    intro x hx
+    have := (List.mem_filter.mp hx).2
+    simpa using this
+  refine ⟨hfind, ?_, ?_, ?_, ?_⟩
+  · unfold NS.listed NS.close
+    simp only [List.mem_map, List.mem_filter, not_exists, not_and]
+    intro x hx hid
+    exact absurd hid (by simpa using hx.1.2)
+  · intro peer b
+    unfold NS.candidatesFor NS.close
+    simp only [List.mem_map, List.mem_filter, not_exists, not_and]
+    intro c hx hid
+    obtain ⟨x, hx, hc⟩ := hx
+    subst hc
+    have h2 : x.id ≠ id := by simpa using hx.1.2
+    exact h2 hid
+  · unfold NS.isElected; rw [hfind]
+  · unfold NS.checkCandidate; rw [hfind]
+
+/-- re-election on reconnection: when no session of `peer` is left (all closed), a freshly opened
+session that registers `peer`'s name — any direction, any nonce — and authenticates is elected:
+`commit_authenticated` lets it survive and closes nobody, it is listed, and its own `CheckSession`
+answers `NoOtherConnection`. -/
+theorem reconnect_elected (st : NS) (peer : String) (id : Nat) (srv : Bool) (n : Nat)
+    (hnone : ∀ s ∈ st.sessions, s.peerName ≠ some peer) (hfresh : ∀ s ∈ st.sessions, s.id ≠ id) :
+    let st1 := ((st.opened id srv).register id peer n).1
+    ∃ st2, st1.commit id = some (st2, true, []) ∧ id ∈ st2.listed ∧ st2.isElected id = true ∧
+      st2.checkSession peer n = .noOther := by
+  intro st1
+  -- the table after open + register: the old sessions untouched, plus the new one
+  have hnew : st1.sessions = st.sessions ++ [⟨id, srv, some peer, if n == 0 then none else some n, false⟩] := by
+    have hf : (st.opened id srv).find id = some ⟨id, srv, none, none, false⟩ := by
+      unfold NS.find NS.opened
+      rw [List.find?_append]
+      have : st.sessions.find? (fun x => x.id == id) = none := by
+        rw [List.find?_eq_none]; intro x hx; simpa using hfresh x hx
+      simp [this]
+    show ((st.opened id srv).register id peer n).1.sessions = _
+    unfold NS.register
+    rw [hf]
+    simp only [NS.opened, List.map_append, List.map_cons, List.map_nil, beq_self_eq_true, if_true]
+    congr 1
+    have : ∀ (l : List Session), (∀ x ∈ l, x.id ≠ id) →
+        l.map (fun s => if (s.id == id) = true then { s with peerName := some peer, conn := if n == 0 then none else some n } else s) = l := by
+      intro l
+      induction l with
+      | nil => intro _; rfl
+      | cons y t ih =>
+        intro h
+        have hy : (y.id == id) = false := by simpa using h y (by simp)
+        simp only [List.map_cons, hy, Bool.false_eq_true, if_false]
+        rw [ih (fun x hx => h x (by simp [hx]))]
+    exact this _ hfresh
+  have hname : st1.thisName = st.thisName := by
+    show ((st.opened id srv).register id peer n).1.thisName = _
+    unfold NS.register
+    split <;> rfl
+  -- facts about the old part of the table
+  have hL1 : ∀ (q : Session → Bool), st.sessions.filter (fun s => s.peerName == some peer && q s) = [] := by
+    intro q
+    rw [List.filter_eq_nil_iff]
+    intro x hx
+    have : (x.peerName == some peer) = false := by simpa using hnone x hx
+    simp [this]
+  have hL2 : st.sessions.find? (fun x => x.id == id) = none := by
+    rw [List.find?_eq_none]; intro x hx; simpa using hfresh x hx
+  have hmap : ∀ (f : Session → Session), (∀ x, x.id ≠ id → f x = x) → st.sessions.map f = st.sessions := by
+    intro f hf
+    have : ∀ (l : List Session), (∀ x ∈ l, x.id ≠ id) → l.map f = l := by
+      intro l
+      induction l with
+      | nil => intro _; rfl
+      | cons y t ih =>
+        intro h
+        simp only [List.map_cons]
+        rw [hf y (h y (by simp)), ih (fun x hx => h x (by simp [hx]))]
+    exact this _ hfresh
+  obtain ⟨tn, ss⟩ := st1
+  simp only at hnew hname
+  subst hnew hname
+  generalize hconn : (if n == 0 then none else some n : Option Nat) = conn
+  -- the state after the commit
+  let newA : Session := ⟨id, srv, some peer, conn, true⟩
+  have hmark : (NS.mk st.thisName (st.sessions ++ [⟨id, srv, some peer, conn, false⟩])).markAuth id =
+      NS.mk st.thisName (st.sessions ++ [newA]) := by
+    unfold NS.markAuth
+    simp only [List.map_append, List.map_cons, List.map_nil, beq_self_eq_true, if_true]
+    rw [hmap _ (fun x hx => by have : (x.id == id) = false := by simpa using hx
+                               simp [this])]
+  have hcand : ∀ b, (NS.mk st.thisName (st.sessions ++ [newA])).candidatesFor peer b = [newA.toCand] := by
+    intro b
+    unfold NS.candidatesFor
+    simp only [List.filter_append, hL1, List.nil_append]
+    simp [newA, List.filter_cons]
+  have hfindA : (NS.mk st.thisName (st.sessions ++ [newA])).find id = some newA := by
+    unfold NS.find
+    simp only [List.find?_append, hL2]
+    simp [newA]
+  have hel : ∀ o, elect o [newA.toCand] = [id] := by intro o; simp [elect, newA, Session.toCand]
+  refine ⟨NS.mk st.thisName (st.sessions ++ [newA]), ?_, ?_, ?_, ?_⟩
+  · unfold NS.commit
+    have hf : (NS.mk st.thisName (st.sessions ++ [⟨id, srv, some peer, conn, false⟩])).find id =
+        some ⟨id, srv, some peer, conn, false⟩ := by
+      unfold NS.find
+      simp only [List.find?_append, hL2]
+      simp
+    rw [hf]
+    simp only [hmark, hcand, hel]
+    have hlos : (NS.mk st.thisName (st.sessions ++ [newA])).losersOf peer [id] = [] := by
+      unfold NS.losersOf
+      simp only [List.filter_append, List.map_append]
+      have : st.sessions.filter (fun x => x.auth && x.peerName == some peer && !([id] : List Nat).contains x.id) = [] := by
+        rw [List.filter_eq_nil_iff]
+        intro x hx
+        have : (x.peerName == some peer) = false := by simpa using hnone x hx
+        simp [this]
+      rw [this]
+      simp [newA]
+    rw [hlos]
+    simp [NS.deauth, hmap]
+  · unfold NS.listed
+    simp [newA]
+  · unfold NS.isElected
+    rw [hfindA]
+    simp only [newA, hcand]
+    simp [elect, Session.toCand]
+  · unfold NS.checkSession
+    have hmatch : ((NS.mk st.thisName (st.sessions ++ [newA])).sessions.filter
+        (fun s => s.peerName == some peer && s.conn == (if n == 0 then none else some n))).map (·.id) = [id] := by
+      rw [hconn]
+      simp only [List.filter_append, hL1, List.nil_append]
+      simp [newA]
+    simp only [hmatch]
+    unfold NS.checkCandidate
+    rw [hfindA]
+    simp only [newA, hcand]
+    simp [elect, Session.toCand]
+
+end Election
